@@ -4,9 +4,9 @@
 From Coq Require Import List Arith NArith Bool ZArith.
 Import ListNotations.
 
-Definition pid := N.      (* pipe id *)
-Definition aioid := N.    (* user aio *)
-Definition ctxid := N.
+Notation pid := N (only parsing).      (* pipe id *)
+Notation aioid := N (only parsing).    (* user aio *)
+Notation ctxid := N (only parsing).
 
 Record pmsg := mkPmsg { pm_hdr : list N; pm_body : list N }.
 
